@@ -269,5 +269,35 @@ CHECKS["C06"] = dict(
     technique="TLA+ expected-schema model sampled with TLC; synthesised models passed through ORMatic, imported and inspected",
 )
 
+CHECKS["C04"] = dict(
+    engine="ObjGraph",
+    category="model_checking",
+    text=("ObjGraph.tla: all 48 825 (heap, root) pairs of three objects over the mapped model A, B<:A, C, alternatively mapped M "
+          "with optional / list references; layer I models from_dao (allocate + memoise, depth-first parse in mapper order, "
+          "initialise, circular fix-ups, mapping placeholder replaced at the very end); TLC checks RoundTripIso with the leak "
+          "switch off and refutes PlaceholderLeak (the as-implemented behaviour), whose prediction `leaks` is exact. Quick: a "
+          "seeded sample of ~4 900 heaps, thorough: all; each is instantiated on the ORM layer that ORMatic generates for "
+          "harness/models/vmodel.py from the working tree, converted with to_dao / from_dao and compared by a lock-step "
+          "isomorphism walk (classes, scalars incl. enum, datetime, list of builtins, custom typed value, JSON-serialisable "
+          "objects; list order; sharing), also with one ToDAOState kept across thousands of conversions."),
+    design_ref="DESIGN.md §4 C04",
+    note=("Trusted: TLC, the isomorphism walk of the replayer. A deviation counts as the open finding C04-F08 only where the "
+          "from_dao model predicts the placeholder leak."),
+    technique="TLA+ heap enumeration + from_dao model checked with TLC; heaps replayed through to_dao/from_dao on a generated ORM layer",
+)
+CHECKS["C05"] = dict(
+    engine="ObjGraph",
+    category="model_checking",
+    text=("ObjGraph.tla heaps with Rows (one row per distinct reachable object along the joined-table chain) and the from_dao "
+          "model; each heap is committed to a fresh in-memory SQLite database, rows per table are counted with plain SQL, the "
+          "root is loaded in a fresh session through its own DAO class and every DAO base class and compared by the "
+          "isomorphism walk (relationship collections as identity sets); all rows are also loaded with one shared "
+          "FromDAOState and what they have in common must be one object."),
+    design_ref="DESIGN.md §4 C05",
+    note=("Trusted: TLC, SQLite, the isomorphism walk. Open findings C05-F08 (as-is model) and C05-F09 (signature: two objects share "
+          "the target of the self-referential single reference, and only `one` came back None)."),
+    technique="TLA+ heap enumeration with expected rows; heaps persisted to SQLite and reloaded in fresh sessions through every DAO class of the chain",
+)
+
 NOT_YET = "check not built yet in this build round (specified in DESIGN.md §4; will be claimed when its TLA+ module and binding exist)"
 NOT_APPLICABLE = {}
